@@ -78,6 +78,15 @@ def ob_lock_coverage():
             self.generic_visit(node)
 
     V().visit(tree)
+    # frame: the counter and the saved collector state are the ONLY module-level variables a function of this module rebinds.  The argument
+    # "every wrapped call enters before and exits after its body, exactly once" is about one call in isolation; it carries over to any number
+    # of threads only if condom / _enter_z3 / _exit_z3 keep no other state that threads share (a process-wide nesting depth, a cached flag...)
+    for fn_node in [n for n in ast.walk(tree) if isinstance(n, (ast.FunctionDef, ast.AsyncFunctionDef))]:
+        for g in [n for n in ast.walk(fn_node) if isinstance(n, (ast.Global, ast.Nonlocal))]:
+            for name in g.names:
+                written = any(isinstance(n, ast.Name) and n.id == name and isinstance(n.ctx, (ast.Store, ast.Del)) for n in ast.walk(fn_node))
+                if name not in GLOBALS and written:
+                    problems.append(f"{fn_node.name} (line {g.lineno}) rebinds the shared variable {name}, which is not one of the lock-guarded variables {GLOBALS}")
     # _gc_lock bound exactly once, to threading.Lock()
     binds = [n for n in ast.walk(tree) if isinstance(n, ast.Assign) and any(isinstance(t, ast.Name) and t.id == "_gc_lock" for t in n.targets)]
     if len(binds) != 1 or ast.unparse(binds[0].value) not in ("threading.Lock()", "threading.RLock()"):
@@ -354,3 +363,39 @@ def replay_transition(task, failure):
     finally:
         bz._active_z3_calls, bz._gc_was_enabled = saved[0], saved[1]
         (gc.enable if saved[2] else gc.disable)()
+
+
+def replay_threads(task=None, failure=None):
+    """native two-thread schedule on the real module: A enters a wrapped call, B enters one, A returns while B is still inside - the
+    collector must stay disabled until B has returned too; then the collector state of before must be back"""
+    import gc
+    import threading
+    import claripy.backends.backend_z3 as bz
+    ev = {k: threading.Event() for k in ("a_in", "a_go", "b_in", "b_go")}
+
+    def body(me):
+        def f():
+            ev[me + "_in"].set()
+            ev[me + "_go"].wait(10)
+            return me
+        return bz.condom(f)
+    was = gc.isenabled()
+    gc.enable()
+    obs = {}
+    try:
+        ta = threading.Thread(target=body("a"))
+        tb = threading.Thread(target=body("b"))
+        ta.start(); ev["a_in"].wait(10)
+        tb.start(); ev["b_in"].wait(10)
+        obs["both inside"] = (gc.isenabled(), bz._active_z3_calls)
+        ev["a_go"].set(); ta.join(10)
+        obs["A returned, B inside"] = (gc.isenabled(), bz._active_z3_calls)
+        ev["b_go"].set(); tb.join(10)
+        obs["both returned"] = (gc.isenabled(), bz._active_z3_calls)
+    finally:
+        for e in ev.values():
+            e.set()
+        (gc.enable if was else gc.disable)()
+    bad = obs["both inside"][0] or obs["A returned, B inside"][0] or obs["A returned, B inside"][1] < 1 or not obs["both returned"][0] or obs["both returned"][1] != 0
+    return {"reproduced": bool(bad), "text": "two threads in wrapped Z3 calls, (collector enabled, calls in progress) " + "; ".join(f"{k}: {v}" for k, v in obs.items())
+            + (" - the collector ran / the count was wrong while a Z3 call was in progress" if bad else " - as required")}
